@@ -47,25 +47,27 @@ type rec struct {
 }
 
 type worker struct {
-	seed   int64
-	k      int
-	tab    *table
-	u      *vh.Universe
-	s      *packet.Session
-	out    *bufio.Writer
-	mu     sync.Mutex
-	cnt    map[string]int
-	hexed  map[string]int
-	seen   map[string]int
-	skip   map[int]map[string]bool
-	curK   int
-	frameT reflect.Type
-	extra  map[string]*packet.Session // sessions over the special NIC configurations (nil: NewSession refused it)
-	curCfg string                     // description of the environment of the current vector ("" = default)
-	state  string                     // session state class to establish before every concrete case
-	skey   string                     // key of the current environment session
-	primed map[string]int
-	nt     int // what the current vector exercised: 1 real code executed, 2 value compared (C02), 4 alias checked (C16)
+	seed        int64
+	k           int
+	tab         *table
+	u           *vh.Universe
+	s           *packet.Session
+	out         *bufio.Writer
+	mu          sync.Mutex
+	cnt         map[string]int
+	hexed       map[string]int
+	seen        map[string]int
+	skip        map[int]map[string]bool
+	curK        int
+	frameT      reflect.Type
+	extra       map[string]*packet.Session // sessions over the special NIC configurations (nil: NewSession refused it)
+	curCfg      string                     // description of the environment of the current vector ("" = default)
+	state       string                     // session state class to establish before every concrete case
+	skey        string                     // key of the current environment session
+	primed      map[string]int
+	probeN      int
+	lastSession *packet.Session // the session the frames of the current vector went through
+	nt          int             // what the current vector exercised: 1 real code executed, 2 value compared (C02), 4 alias checked (C16)
 }
 
 func (w *worker) emit(r rec) {
@@ -482,7 +484,7 @@ func (w *worker) staleFrame(family int, rng *rand.Rand) []byte {
 	default:
 		s = pshape{Path: "ip4", Src: "router", Sip: "routerip", Etype: 0x0800, Flen: 14 + 20 + 8 + 32, Ihl: 5, Tl: 60, Proto: 1, Itype: 0}
 	}
-	return buildFrame(&s, rng, w.u, true)
+	return buildFrame(&s, rng, w.u, true, "random")
 }
 
 // reusedBuffer places data at the start of a receive buffer that still holds the rest of a previously
@@ -570,13 +572,14 @@ func (w *worker) checkOutcome(v *vector, o *outcome, a parseObs, data []byte, ho
 
 func (w *worker) runParse(v *vector) {
 	s, o := v.S, v.O
+	w.lastSession = w.s
 	for k := 0; k < w.k; k++ {
 		w.curK = k
 		if w.skip[v.ID]["Parse"] {
 			return
 		}
 		rng := caseRand(w.seed, k, s)
-		data := buildFrame(s, rng, w.u, false)
+		data := buildFrame(s, rng, w.u, false, fills[k%len(fills)])
 		seen := map[string]bool{}
 		if w.state != "" && w.state != "none" {
 			w.prime(data)
@@ -613,12 +616,41 @@ func (w *worker) runParse(v *vector) {
 				w.mm(v, "C01", "tail", "Parse", "", "spare capacity untouched", "modified", data)
 			}
 		}
-		// ---- C01: the result depends only on the bytes: the same bytes after an unrelated frame ----
-		if _, _, p := w.doParse(w.staleFrame(k+v.ID, rng)); p == "" {
-			again := w.observeParseLight(v, append([]byte{}, data...))
-			w.cnt["parses"] += 2
-			if view, g, x, y, d := firstDiff(a.components(true), again.components(true)); d {
-				w.mm(v, "C01", "state", view, g, "first parse: "+x, "same bytes after another frame: "+y, data)
+		// ---- Parse is a function of the frame alone: the same bytes after prefixes derived from the case itself
+		// (spec: PrefixTransforms) and after unrelated traffic must decode as the first time (C01 state, C02 outcome)
+		if a.panicText == "" {
+			prefixes := []struct {
+				name   string
+				frames [][]byte
+			}{
+				{"an unrelated frame", [][]byte{w.staleFrame(k+v.ID, rng)}},
+				{"its reverse (addresses and ports swapped)", [][]byte{reverseFrame(data, s)}},
+				{"the same 5-tuple with another payload", [][]byte{sameTuple(data, s, rng)}},
+				{"the same ports between other addresses", [][]byte{otherAddresses(data, s, rng, w.u)}},
+				{"its reverse, then ARP and ICMP traffic", [][]byte{reverseFrame(data, s), w.staleFrame(2, rng), w.staleFrame(3, rng)}},
+			}
+			for _, pf := range prefixes {
+				bad := false
+				// every prefix starts with unrelated UDP conversations of both families, so that whatever the session
+				// remembers about "the last datagram / flow / source" is about someone else when the derived frame arrives
+				for _, f := range append([][]byte{w.staleFrame(0, rng), w.staleFrame(1, rng)}, pf.frames...) {
+					if _, _, p := w.doParse(f); p != "" {
+						bad = true // the derived frame has its own vector class; a panic there is reported there
+					}
+					w.cnt["parses"]++
+				}
+				if bad {
+					continue
+				}
+				again := w.observeParseLight(v, append([]byte{}, data...))
+				w.cnt["parses"]++
+				w.cnt["prefix_checks"]++
+				if view, g, x, y, d := firstDiff(a.components(true), again.components(true)); d {
+					w.mm(v, "C01", "state", view, g, "first parse: "+x, "same bytes after "+pf.name+": "+y, data)
+				}
+				if again.panicText == "" {
+					w.checkOutcome(v, o, again, data, " (parsed again after "+pf.name+")", seen)
+				}
 			}
 		}
 		// report panics / escapes on the buffer that shows them (spare capacity can hide a panic)
@@ -1140,6 +1172,44 @@ func (w *worker) trackHost(mac net.HardwareAddr, i, uniq int) {
 	w.doParse(f)
 }
 
+var fills = []string{"random", "zero", "ones", "random"}
+
+const probeOp = "Parse(first frame of a never-seen source, after the frames of the case)"
+
+// newSourceProbe: after the frames of a vector, every session used parses the first frame of a source it
+// has never seen (host creation: the write path of the tables).  If a frame of the case left the session
+// in a state that blocks it (a lock not released), this call does not return and the watchdog attributes
+// the hang to the case.
+func (w *worker) newSourceProbe(v *vector) {
+	if w.skip[v.ID][probeOp] {
+		return
+	}
+	w.probeN++
+	f := w.staleFrame(1, rand.New(rand.NewSource(int64(w.probeN))))
+	copy(f[6:12], []byte{0x02, 0x00, 0x00, 0x05, byte(w.probeN >> 8), byte(w.probeN)})
+	copy(f[22:38], []byte{0xfe, 0x80, 0, 0, 0, 0, 0, 0, 0, 0, 0x99, byte(os.Getpid()), byte(w.probeN >> 16), byte(w.probeN >> 8), byte(w.probeN), 1})
+	sessions := []*packet.Session{w.lastSession}
+	for _, s := range sessions {
+		if s == nil {
+			continue
+		}
+		func() {
+			begin(probeOp)
+			defer end()
+			defer func() {
+				if e := recover(); e != nil {
+					w.mm(v, "C01", "panic", "Parse", "", "returns (first frame of a never-seen source after the case)", "PANIC: "+fmt.Sprint(e), f)
+				}
+			}()
+			fr, err := s.Parse(f)
+			w.cnt["new_source_probes"]++
+			if err != nil || fr.Host == nil {
+				w.cnt["new_source_probe_untracked"]++
+			}
+		}()
+	}
+}
+
 var logLevels = map[string]fastlog.LogLevel{"error": fastlog.LevelError, "info": fastlog.LevelInfo, "debug": fastlog.LevelDebug}
 
 // ---- worker main --------------------------------------------------------------------------------
@@ -1195,6 +1265,9 @@ func runWorker(vecs []*vector, tab *table, from, to, k int, seed int64, cfg int,
 		case "field":
 			w.cnt["vectors_field"]++
 			w.runField(v)
+		}
+		if v.Fam == "parse" {
+			w.newSourceProbe(v)
 		}
 		w.emit(rec{T: "v", ID: v.ID, K: w.nt})
 	}
